@@ -1,0 +1,41 @@
+//go:build verif
+
+package cloudwatch
+
+import (
+	"github.com/sirupsen/logrus"
+	"github.com/spf13/viper"
+
+	"github.com/atlassian/gostatsd"
+	"github.com/atlassian/gostatsd/internal/util"
+)
+
+// NewClientWithCloudwatch (verif hook H4) constructs the Cloudwatch backend around the given
+// CloudwatchClient instead of building an AWS SDK client from the ambient AWS configuration.
+// Everything else is what NewClient sets up.
+// Only built with the "verif" tag; the shipped behaviour is unchanged.
+func NewClientWithCloudwatch(cw CloudwatchClient, namespace string, disabled gostatsd.TimerSubtypes, logger logrus.FieldLogger) *Client {
+	return &Client{
+		logger: logger,
+
+		cloudwatch: cw,
+		namespace:  namespace,
+
+		disabledSubtypes: disabled,
+	}
+}
+
+// NewClientFromViperWithCloudwatch (verif hook H4) reads the same configuration keys with the same
+// defaults as NewClientFromViper (cloudwatch.namespace, disabled-sub-metrics.*; cloudwatch.transport is
+// not needed as no HTTP client is built) and constructs the backend around cw.
+func NewClientFromViperWithCloudwatch(v *viper.Viper, logger logrus.FieldLogger, cw CloudwatchClient) (gostatsd.Backend, error) {
+	g := util.GetSubViper(v, "cloudwatch")
+	g.SetDefault("namespace", "StatsD")
+
+	return NewClientWithCloudwatch(
+		cw,
+		g.GetString("namespace"),
+		gostatsd.DisabledSubMetrics(v),
+		logger,
+	), nil
+}
